@@ -12,6 +12,8 @@ import (
 	"go/types"
 	"strconv"
 	"strings"
+
+	"golang.org/x/tools/go/ssa"
 )
 
 type Env struct {
@@ -361,6 +363,13 @@ func (e *Env) ident(name string) Val {
 				return Val{K: VConst, T: c.Type(), C: c.Val()}
 			}
 			if _, ok := obj.(*types.Var); ok {
+				if sp := e.t.W.prog.Package(e.pkg); sp != nil {
+					if sg, ok := sp.Members[name].(*ssa.Global); ok {
+						if cg := e.t.W.constGlobalOf(sg); cg != nil {
+							return e.t.constGlobalVal(sg, cg, obj.Type())
+						}
+					}
+				}
 				// package-level variable: a global cell
 				g := "global." + sanitize(e.pkg.Name()+"."+name)
 				e.t.declare(g, "Int")
@@ -468,6 +477,14 @@ func (e *Env) selector(n *ast.SelectorExpr) Val {
 						return Val{K: VConst, T: c.Type(), C: c.Val()}
 					}
 					if v, ok := obj.(*types.Var); ok {
+						// never-assigned literal slice: the same constant the code sees
+						if sp := t.W.prog.Package(p); sp != nil {
+							if sg, ok := sp.Members[n.Sel.Name].(*ssa.Global); ok {
+								if cg := t.W.constGlobalOf(sg); cg != nil {
+									return t.constGlobalVal(sg, cg, v.Type())
+								}
+							}
+						}
 						// package-level variable of another package: a global cell
 						g := "global." + sanitize(p.Name()+"."+n.Sel.Name)
 						t.declare(g, "Int")
